@@ -251,7 +251,7 @@ InvC06 == Fresh => /\ C06perm(cy.pre, cy.qs)
                    /\ \A k \in DOMAIN cy.qs :
                         /\ C06rank(cy.qs[k]) /\ C06prio(cy.pre, cy.qs[k])
                         /\ C06zeroLast(cy.pre, cy.qs[k]) /\ C06boost(cy.pre, cy.qs[k])
-                        /\ C06cap(cy.pre, cy.qs[k], st)
+                        /\ C06cap(cy.pre, cy.qs[k], st) /\ C06capOnly(cy.pre, cy.qs[k])
 InvC07 == Fresh => C07justified(cy.pre, st, FlatQ)
 InvC08 == Fresh => /\ C08keep(cy.pre, st, FlatQ, EmptyFn) /\ C08expire(cy.pre, st, EmptyFn)
                    /\ C08frozenKeep(cy.pre, st, FlatQ) /\ C08frozenNoNew(cy.pre, st)
